@@ -96,8 +96,8 @@ func (c05AuditWriter) Write(al plugintypes.AuditLog) error {
 	id := al.Transaction().ID()
 	var msgs []string
 	for _, m := range al.Messages() {
-		if m.Data() != nil {
-			msgs = append(msgs, fmt.Sprint(m.Data().ID()))
+		if id := safeMsgID(m); id != 0 {
+			msgs = append(msgs, fmt.Sprint(id))
 		}
 	}
 	body := ""
